@@ -244,7 +244,7 @@ func getRoundCtx(name string) (*roundCtx, error) {
 		}
 		return nil
 	})
-	if res.Verdict != engine.Accept {
+	if !res.AcceptedHonestly() {
 		return nil, fmt.Errorf("recording the transcript of %s failed: %s", name, res)
 	}
 	// reference side
